@@ -6,14 +6,13 @@ use crate::ent::{content, BoxError};
 use crate::model::range::{parse_content_range, ContentRange};
 use crate::util::{hash64, norm_loc, show};
 use bytes::Bytes;
-use futures_core::Stream;
 use http_serve::{ChunkedReadFile, Entity};
 use serde_json::{json, Value};
 use std::fs::File;
 use std::io::Write;
 use std::path::{Path, PathBuf};
 use std::sync::atomic::{AtomicU64, Ordering};
-use std::sync::{OnceLock, RwLock};
+use std::sync::RwLock;
 use std::task::{Context, Poll};
 
 type Crf = ChunkedReadFile<Bytes, BoxError>;
@@ -22,14 +21,11 @@ pub fn register(v: &mut Vec<Box<dyn Prop>>) {
     v.push(Box::new(C18));
 }
 
-fn rt() -> &'static tokio::runtime::Runtime {
-    static RT: OnceLock<tokio::runtime::Runtime> = OnceLock::new();
-    RT.get_or_init(|| tokio::runtime::Builder::new_multi_thread().worker_threads(4).build().expect("tokio runtime"))
-}
+static RT: crate::util::LazyRt = crate::util::LazyRt::new(4);
 
 /// Runs `f` on a worker thread of the multi-thread runtime (where `block_in_place` is legal).
 fn on_rt<R: Send + 'static>(f: impl FnOnce() -> R + Send + 'static) -> Result<R, String> {
-    rt().block_on(async { tokio::spawn(async move { crate::util::catch(f) }).await }).map_err(|e| format!("task failed: {}", e)).and_then(|r| r)
+    RT.with(|rt| rt.block_on(async { tokio::spawn(async move { crate::util::catch(f) }).await })).map_err(|e| format!("task failed: {}", e)).and_then(|r| r)
 }
 
 /// Read-cap hook is process-wide: capped cases take the write side.
@@ -178,7 +174,7 @@ fn run_read(size: u64, a: u64, b: u64, cap: usize, trunc: Option<(u32, u64)>, vi
         }
         let resp = http_serve::serve(crf, &req);
         let (parts, body) = resp.into_parts();
-        let d = drain(body, u64::MAX, 1);
+        let d = drain(body, u64::MAX, 0); // no polls after the end: unfold-based entity streams are not fused (outside C20's proviso)
         let o = ReadObs {
             chunks: d.steps.iter().filter_map(|s| if let crate::bodymon::Ev::Data(n) = s.ev { Some(n) } else { None }).collect(),
             data: d.data.clone(),
